@@ -37,7 +37,7 @@ def main():
         print("unknown or not-applicable property %s" % args.prop, file=sys.stderr)
         return 2
     R = Report(args.prop, args.tier)
-    configs = ["default"] if args.tier == "quick" else ["default", "no-default-features", "arbitrary"]
+    configs = ["default"] if args.tier == "quick" else ["default", "no-default-features", "arbitrary", "no-debug-assertions"]
     try:
         for cfg in configs:
             if args.facts and cfg == "default":
